@@ -5,9 +5,10 @@
 For every generated (configuration, operation) pair the real planner's plan is dumped (harness/cmd/c01p), translated
 to the Coq plan form (a plan TREE, coq/C01/ProofsPlan3.v; fallback: the depth-1 form of ProofsPlan2.v) and given to the
 verified validator `tv3_static_b` (`tv2_static_b`) extracted into bin/model_c01p (ocaml/c01p/driver.ml).  By theorem
-`tv3_sound` (coq/C01/ProofsPlan3Main.v; `tv2_sound`, ProofsTvMain.v) acceptance means: for EVERY universe of the contract
-`univ3_contract_b` the gateway model executing that plan returns what a single server over the supergraph returns for
-the client's operation.  The translation is checked, not trusted: the model's own requests must be the
+`tv3_sound` / `tv4_sound` (coq/C01/ProofsPlan3Main.v; `tv2_sound`, ProofsTvMain.v) acceptance means: for EVERY universe of the
+contract `univ3_contract_b` (`univ4_contract_b` for trees with positions resolved per runtime type: interface / union
+positions) the gateway model executing that plan returns what a single server over the supergraph returns for the client's
+operation.  The translation is checked, not trusted: the model's own requests must be the
 real plan's requests and the requests of real end-to-end runs, and the extracted model run on the sampled universes
 must return the real gateway's response."""
 import glob
@@ -22,11 +23,12 @@ if __name__ == "__main__":
 import vlib
 
 ASSUMPTIONS = [
-    "plan translation validation (C01p): the theorems tv3_sound / tv2_sound are about the gateway MODEL gateway3 / gateway2 "
+    "plan translation validation (C01p): the theorems tv3_sound / tv4_sound / tv2_sound are about the gateway MODEL gateway3 / gateway2 "
     "(coq/C01/ProofsPlan3.v, ProofsPlan2.v: one Sub-mode request per root subgraph, the answers merged and read in the client's "
     "order; then, recursively at every object of the response, the entity fetches of that position -- one _entities request per "
     "object, representation read off the object as merged so far --, the members assembled in the client's order from the sources, "
-    "planner-added fields never rendered, non-null violations propagated as the renderer does); that the real loader + renderer "
+    "planner-added fields never rendered, non-null violations propagated as the renderer does; at an interface / union position the "
+    "plan tree of the object's runtime type is chosen by the __typename member of the source's object); that the real loader + renderer "
     "execute the dumped plan as the model does is not proved here: it is tied by (a) the request comparison of this part (model "
     "requests == fetches of the real plan; every request of real end-to-end runs is one of the model's, modulo printing, batching of "
     "the per-object entity requests and single flight), (b) the extracted gateway3 run on the sampled universes == the real gateway "
@@ -36,13 +38,17 @@ ASSUMPTIONS = [
     "C01p trusted base: harness/cmd/c01p (planning with the engine's own recipe -- normalise, validate, extract + map variables, "
     "plan.Planner, postprocess.Processor --, dump of fetch tree / request templates / representation templates; the upstream query "
     "texts are parsed with the repo's parser and dumped by fedlab.DumpDocument), ocaml/c01p/driver.ml (reader, the canonical form "
-    "used to compare requests: selection sets as sets, unused variable definitions dropped, identical requests of one execution "
-    "counted once -- single flight, C11), ocaml/common/gqlread.ml, extraction (ExtrOcamlBasic)",
+    "used to compare requests, canon_doc_t: WITH the schema of the subgraph the request goes to, per object type the selection "
+    "set can be evaluated on, the set of fields it collects there (inline fragments resolved as CollectFields does, the fields of "
+    "one response key merged) -- two requests of one canonical form ask every object the subgraph can return for the same fields; "
+    "unused variable definitions dropped; an entity request with several `... on T` parts is compared part by part with the model's "
+    "one-type requests; identical requests of one execution counted once -- single flight, C11), ocaml/common/gqlread.ml, "
+    "extraction (ExtrOcamlBasic)",
     "C01p: the theorem is about the operation the planner is given (normalised, fragment spreads inlined, literals extracted into "
     "variables, variables renamed); that normalisation preserves the client operation's meaning is property C03; configurations "
-    "satisfy harness/fedlab/CONTRACT.md; the universe contract univ3_contract_b (objects reached through a subgraph's fields have "
+    "satisfy harness/fedlab/CONTRACT.md; the universe contract univ3_contract_b / univ4_contract_b (objects reached through a subgraph's fields have "
     "types the subgraph declares, declared keys identify entities, key fields and @requires inputs are plain non-null leaves, "
-    "computed (@requires) fields only where declared; nothing is assumed about the values of list-typed fields) is evaluated on every sampled universe and the "
+    "computed (@requires) fields only where declared; univ4: every entity has a declared object type; nothing is assumed about the values of list-typed fields) is evaluated on every sampled universe and the "
     "count reported",
 ]
 
@@ -69,7 +75,7 @@ def _search(exe, pid, unis, timeout=120):
     return None, out.strip()[:200]
 
 
-def run_part(chk, n_cfg=None, unis=None):
+def run_part(chk, n_cfg=None, unis=None, knobs="all2"):
     """Builds, runs the corpus first, then generated pairs; fills chk.coverage['plan_validation'], adds violations."""
     t0 = time.time()
     quick = chk.tier == "quick"
@@ -84,7 +90,8 @@ def run_part(chk, n_cfg=None, unis=None):
           "pending_proof": {}, "rejected_in_fragment": 0, "translation_check_failures": 0,
           "accepted_by_theorem": {}, "max_fetch_depth": 0,
           "universes_run": 0, "universes_in_contract": 0,
-          "theorem": "tv3_sound / tv3_sound_execute (plan trees, coq/C01/ProofsPlan3Main.v); fallback tv2_sound (depth 1, coq/C01/ProofsTvMain.v)"}
+          "theorem": "tv3_sound (plan trees) / tv4_sound (plan trees with positions resolved per runtime type), coq/C01/ProofsPlan3Main.v, "
+                     "Properties.v plan_tree_valid_all_universes / plan_tree_abstract_valid_all_universes; fallback tv2_sound (depth 1, coq/C01/ProofsTvMain.v)"}
     chk.coverage["plan_validation"] = pv
     ok, log = vlib.build_model("C01p")
     if not ok:
@@ -105,7 +112,7 @@ def run_part(chk, n_cfg=None, unis=None):
     corpus = os.path.join(vlib.ROOT, "corpus", "C01p")
     if glob.glob(os.path.join(corpus, "*.json")):
         batches.append(("corpus", "%s replay -in %s -out {out}" % (exe, corpus)))
-    batches.append(("gen", "%s gen -seed %d -from 0 -n %d -fedops 5 -dirops 5 -unis %d -knobs all -out {out}" % (exe, chk.seed, n_cfg, unis)))
+    batches.append(("gen", "%s gen -seed %d -from 0 -n %d -fedops 5 -dirops 5 -unis %d -knobs %s -out {out}" % (exe, chk.seed, n_cfg, unis, knobs)))
     samples = []
     for tag, cmd in batches:
         cases = os.path.join(work, "%s-%s.cases" % (chk.tier, tag))
@@ -159,6 +166,14 @@ def run_part(chk, n_cfg=None, unis=None):
                 # the real gateway's response equals the model's (hence the monolith's) up to the order of object members
                 pv["member_order_differences"] = pv.get("member_order_differences", 0) + int(od.group(1))
                 pv.setdefault("member_order_sample", " ".join(pid) if pid else "")
+            gd = re.search(r"\(gateway_differs (\d+)\)", detail)
+            if gd and int(gd.group(1)) > 0:
+                # valid plan (theorem), model == monolith, all requests the model's -- the engine's response differs: a defect after
+                # fetching (response tree / rendering); the divergence itself is reported by the C01 data check with its own keys
+                pv["valid_plan_gateway_differs"] = pv.get("valid_plan_gateway_differs", 0) + 1
+                pv.setdefault("valid_plan_gateway_differs_samples", [])
+                if pid and len(pv["valid_plan_gateway_differs_samples"]) < 5:
+                    pv["valid_plan_gateway_differs_samples"].append("seed %s cfg %s op %s %s" % (pid[0], pid[1], pid[2], pid[4]))
             if "(abstract true)" in detail and "(accepted true)" in detail:
                 pv["accepted_with_abstract_selection"] = pv.get("accepted_with_abstract_selection", 0) + 1
             if "(accepted true)" in detail:
